@@ -10,6 +10,7 @@ Prefix-model validation: real runs whose DiskSink file object kills the process 
 must be exactly the k-byte prefix of the reference log.
 """
 import os, sys, json, gzip, zlib, tempfile, shutil, subprocess
+from collections import Counter
 from vf import expkit as X
 
 ID    = "C02"
@@ -21,7 +22,7 @@ PLAN  = {"quick":    {"shards": 16, "cases": 32,  "timeout": 1500, "budget_s": 1
          "thorough": {"shards": 16, "cases": 320, "timeout": 7000, "budget_s": 1500, "points": 400, "mp_every": 25}}
 REQUIRED = ["oracle.resumed==reference", "oracle.no-recorded-triple-reevaluated", "oracle.pending-evaluated-once", "oracle.no-duplicate-record",
             "oracle.from_file==returned", "crash.record-boundary", "crash.inside-record", "crash.gz", "kill.prefix-model-validated",
-            "resume.multiproc", "big-log.cases", "observed.logs-with-non-ascii-params"]
+            "resume.multiproc", "big-log.cases", "observed.logs-with-non-ascii-params", "oracle.from_file-on-killed-file"]
 ASSUMPTIONS = ["a killed run leaves a byte-prefix of the log it would have written (validated by the real-kill runs: append only, flush per line, single writer)",
                "only complete records count as recorded; parameter records (E/L/V) may legitimately be written again"]
 
@@ -177,6 +178,16 @@ def check_case(case, ctx=None, only_points=None):
             feat = f"file={'gz' if gz else 'plain'}/point={cls}/resume={'multiproc' if use_mp else 'inproc'}"
             if ctx is not None: ctx.case((len(blob), gz, cls, n, cfg), nontrivial=bool(pending))
             note("crash." + ("gz" if gz else "record-boundary" if cls in ("record-boundary", "complete-log", "empty-file") else "inside-record"))
+            # ---- the file as the killed run left it can be read: what it holds is a part of the uninterrupted run's Result
+            note("oracle.from_file-on-killed-file")
+            try:
+                part = X.canon_result(Result.from_file(path))
+                ref_rows = Counter(json.dumps(r, sort_keys=True) for r in cref["interactions"])
+                extra = Counter(json.dumps(r, sort_keys=True) for r in part["interactions"]) - ref_rows
+                if extra:
+                    viol.append((f"killed-file/from_file-holds-rows-the-uninterrupted-run-never-produced/{feat}", f"prefix {n}/{len(blob)}: e.g. {list(extra)[:1]}")); continue
+            except Exception as e:
+                viol.append((f"killed-file/from_file-raised:{type(e).__name__}/{feat}", f"Result.from_file on the first {n} of {len(blob)} bytes raised {type(e).__name__}: {str(e)[:160]}")); continue
             try:
                 if use_mp:
                     out = X.run_subprocess(spec, cfg, wd, result_file=path, side=side)
